@@ -196,7 +196,7 @@ Section M.
       { unfold lastc. destruct cs'; [|reflexivity]. f_equal. f_equal. lia. }
       rewrite Elast.
       (* decoration facts of the operand *)
-      destruct (child_jump fetch custom P SA ridx h_p pn mf_p mt_p a0p KR_p stk0 Gp NFp STp OSp Hh Hs0 RIp EndH Hroot
+      destruct (child_jump fetch custom P SA ridx h_p pn mf_p mt_p a0p KR_p stk0 (fun x => x) Gp NFp STp OSp Hh Hs0 RIp EndH Hroot
                   (ridx + 1) anc aidx inh fl (b + Z.of_nat (size c)) (h_p + lenZ acc) HA Hai ltac:(lia) ltac:(lia)
                   ltac:(pose proof (lenZ_nonneg acc); lia)) as [RIc Hjump].
       fold anc' in RIc, Hjump.
